@@ -691,7 +691,13 @@ func (e *Env) StartRPC(parent context.Context, ch grpc.ClientConnInterface, spec
 		}
 		md.Set("x-rpc", spec.ID)
 		if spec.GrpcTimeout != "" {
-			md.Set("grpc-timeout", strings.Split(spec.GrpcTimeout, "\x1f")...)
+			parts := strings.Split(spec.GrpcTimeout, "\x1f")
+			for i := range parts {
+				if parts[i] == "\x1e" { // an explicitly empty header value
+					parts[i] = ""
+				}
+			}
+			md.Set("grpc-timeout", parts...)
 		}
 		ctx = metadata.NewOutgoingContext(ctx, md)
 	}
